@@ -18,7 +18,8 @@ COQ = VERIF / "coq"
 BUILD = VERIF / "build"
 DRIVER = BUILD / "driver"
 REPLAYS = VERIF / "replays"
-EVIDENCE = VERIF / "evidence"
+# runs against a modified copy of the repository (tools/try_seed_wt.sh) must not overwrite the evidence of /repo
+EVIDENCE = Path(os.environ["VERIF_EVIDENCE_DIR"]) if os.environ.get("VERIF_EVIDENCE_DIR") else VERIF / "evidence"
 CORPUS = VERIF / "corpus"
 KNOWN = VERIF / "known_findings.json"
 
@@ -364,6 +365,11 @@ def write_evidence(ctx, proof, cov, assumptions, violations):
         "coqchk": proof.get("coqchk", "not run in this tier (thorough tier runs coqchk -o on Props/%s.vo and its dependencies)" % ctx.prop),
     }
     coverage.update(cov)
+    try:
+        import mokapot as _mk
+        coverage["implementation_under_test"] = os.path.dirname(os.path.abspath(_mk.__file__))
+    except Exception as e:
+        coverage["implementation_under_test"] = "mokapot not importable: " + type(e).__name__
     if coverage["discharged"] < 1:
         # schema wants >= 1 for the proof keys; fall back to the generic keys
         coverage.pop("obligations")
